@@ -5,6 +5,8 @@ From Coq Require Import Reals List Arith Lra.
 From OSU.Lib Require Import Cyclic Fmod.
 From OSU.Model Require Import Directional DirStats.
 From OSU.Proofs Require Import Directional DirStats.
+From OSU.Generated Require MathSrc.
+From OSU.Proofs Require Import MathGen.
 Import ListNotations.
 Open Scope R_scope.
 
@@ -18,6 +20,13 @@ Proof. exact Fmod.fmod_period. Qed.
 Theorem wrap360_range_and_congruence : forall d,
   wrap360 d = fmod (d + 180) 360 - 180 /\ -180 <= wrap360 d < 180 /\ cong360 (wrap360 d) d.
 Proof. exact wrap360_range_and_congruence. Qed.
+
+(* ---- the tie to the source: coq/Generated/MathSrc.v is regenerated from tools/math.py on every run; the
+   call made for direction grids, wrapped_difference(delta, period=360), is [wrap360] *)
+Theorem source_wrapped_difference_is_wrap360 : forall d,
+  MathSrc.wrapped_difference d 360 (MathSrc.wrapped_difference_default_discont 360) = wrap360 d.
+Proof. exact src_wrap360. Qed.
+
 
 (* ---- direction steps ---- *)
 (* the grid covers the circle: it is congruent (mod 360, element by element) to a reference grid
